@@ -18,6 +18,10 @@ def cls_of(relpath):
     b = os.path.basename(relpath)
     if b.endswith("aldormain.c"):
         return "main"
+    if b.endswith("_cc.h"):
+        return "cpph"
+    if b.endswith("_as.as"):
+        return "cppas"
     ext = os.path.splitext(b)[1]
     return {".ao": "ao", ".fm": "fm", ".c": "c", ".h": "h", ".lsp": "lsp", ".java": "java", ".asy": "asy",
             ".ap": "ap", ".ai": "ai", ".as": "src", ".al": "lib"}.get(ext, "other")
